@@ -3,6 +3,7 @@ OUT='/tmp/seed4/out'
 EXT = {
  'C05/m1': "a two-branch context in which both calls go to the very same callee object with different written arguments (ifelse_same)",
  'C05/m2': "a route whose wrapper is made with functools.wraps over a function carrying an explicit __signature__ with star parameters (wrapssig)",
+ 'C06/m1': "a route through a generic helper shared by every program of a module, each wrapper handing it another callee (helper)",
  'C07/m1': "sourced functions with postponed annotations that raise TypeError / ZeroDivisionError / ValueError when evaluated, passed through the Sphinx hook",
  'C07/m2': "forwarders whose star parameters (and two callees' same-named parameters) carry non-type annotations (tuples, lists, sets)",
  'C08/m1': "two and three modifiers stacked on one function in the wrapper-swap check",
@@ -43,7 +44,7 @@ for p in sorted(os.listdir(OUT)):
         if os.path.exists(os.path.join(src, 'patch_original.diff')):
             shutil.copy(os.path.join(src, 'patch_original.diff'), os.path.join(dst, 'patch_original.diff'))
         notes = open(os.path.join(src, 'notes.md')).read()
-        m = re.search(r'\**(?:Needed to manifest|Needs)\**:?\**:?\s*(.*?)(?:\n[-*]|\n\n|\n\*\*)', notes, re.S)
+        m = re.search(r'\**(?:Needed to manifest|Needs)\**:?\**:?\s*(.*?)(?:\n[-*]|\n\n|\n\*\*|\n(?=[A-Z(]))', notes, re.S)
         needs = ' '.join(m.group(1).split()) if m else ''
         needs = needs.lstrip('*: ').strip()
         assert needs, key
